@@ -129,6 +129,8 @@ octosql "SELECT * FROM plugins.plugins"`,
 			return fmt.Errorf("database '%s' plugin '%s' used in configuration is not installed with the required version - run `octosql plugin install` to install all missing plugins", cfg.Databases[i].Name, cfg.Databases[i].Type.String())
 		}
 
+		verifResolvedVersions(resolvedVersions)
+
 		databases := make(map[string]func() (physical.Database, error))
 		for _, dbConfig := range cfg.Databases {
 			once := sync.Once{}
